@@ -134,7 +134,6 @@ func RenderValueString(v interface{}) string {
 	return b.String()
 }
 
-
 // Scribble overwrites a JSON-like value in place, the way a caller that owns a
 // result may: every scalar becomes a marker, every map gains a key. Results of
 // other calls, and the schema, must be unaffected.
